@@ -32,7 +32,8 @@ IDX = st.sampled_from([0, 0, 0, 1, 1, 1, 2, 2, 3, 4, 5])
 ODD = ['int', 'str', 'none', 'object', 'func', 'list', 'builtin_cls',
        'module', 'provides_none', 'provides_spec', 'provides_raises',
        'provides_attrerror', 'providedBy_raises', 'providedBy_attrerror',
-       'providedBy_junk', 'slots', 'pb_attrerror_provides_raises',
+       'providedBy_junk', 'slots', 'slots_provides',
+       'pb_attrerror_provides_raises',
        'conform_prop_valueerror', 'conform_prop_attrerror',
        'conform_typeerror']
 
@@ -258,12 +259,16 @@ def op_strategy(draw):
         if k == 'subscriptions' and draw(st.integers(0, 3)) == 0:
             prov = ['N']
         return [k, draw(IDX), draw(st.lists(specref(), max_size=2)), prov,
-                draw(name_or_bad), draw(st.booleans())]
+                draw(name_or_bad), draw(st.booleans()), draw(CALL_FORM)]
     prov = draw(ifaceref())
     if k == 'subscribers' and draw(st.integers(0, 3)) == 0:
         prov = ['N']
     return [k, draw(IDX), draw(st.lists(objref(), max_size=2)), prov,
-            draw(name_or_bad), draw(st.booleans())]
+            draw(name_or_bad), draw(st.booleans()), draw(CALL_FORM)]
+
+
+# 9 = positional call, k < 9 = first k arguments positional, rest by keyword
+CALL_FORM = st.sampled_from([9, 9, 9, 0, 1, 2])
 
 
 @st.composite
